@@ -110,6 +110,11 @@ func addMultiTypeEnums(t *rapid.T, c *core.Ctx, f *model.File) {
 		{[]string{"integer", "boolean"}, []jv.V{jv.IntV(7), jv.BoolV(true), jv.BoolV(false)}},
 		{[]string{"string", "null"}, []jv.V{jv.StrV("a"), jv.StrV("b"), jv.NullV()}},
 		{[]string{"integer", "string", "boolean"}, []jv.V{jv.IntV(5), jv.StrV("five"), jv.BoolV(true)}},
+		// a member that is the string spelling of another member (untyped list)
+		{nil, []jv.V{jv.IntV(1), jv.StrV("1")}},
+		{nil, []jv.V{jv.StrV("true"), jv.BoolV(true), jv.StrV("x")}},
+		{nil, []jv.V{jv.StrV("2.5"), jv.NumLit("2.5"), jv.StrV("x")}},
+		{[]string{"string", "integer"}, []jv.V{jv.StrV("7"), jv.IntV(7), jv.IntV(8)}},
 	}
 	n := rapid.IntRange(1, 2).Draw(t, "nmultitype")
 	for i := 0; i < n; i++ {
